@@ -6,7 +6,7 @@
 EXTENDS SmfRef, Synth, Seq, Json, IOUtils, Sequences
 
 T == ndJsonDeserialize(IOEnv.TRACE)
-MaxFails == 12
+MaxFails == 60
 VARIABLES l, song, cfg, pos, fails, cnt, exec, drift
 vars == <<l, song, cfg, pos, fails, cnt, exec, drift>>
 
@@ -19,7 +19,10 @@ Cnt0 == [steps |-> 0, execs |-> 0, plays |-> 0, events |-> 0, sameTickGroups |->
 Init == l = 1 /\ song = [none |-> TRUE] /\ cfg = Cfg0 /\ pos = Pos0 /\ fails = <<>> /\ cnt = Cnt0 /\ exec = 0 /\ drift = <<>>
 
 Tag(p, S, ev, d) == { [p |-> p, w |-> x, l |-> l, x |-> exec, e |-> ev.e, d |-> d] : x \in S }
-AddFails(S) == IF Len(fails) >= MaxFails \/ S = {} THEN fails ELSE fails \o SetToSeq(S)
+\* capped per (property, label), never in total: failures of another property's monitors or instances of a listed finding must
+\* not use up the room of a different failure of the same chunk
+AddFails(S) == LET keep == { x \in S : Cardinality({ i \in DOMAIN fails : fails[i].p = x.p /\ fails[i].w = x.w }) < MaxFails } IN
+               IF keep = {} THEN fails ELSE fails \o SetToSeq(keep)
 Lbl(c, s) == IF c THEN {} ELSE {s}
 
 ---------------------------------------------------------------------------
@@ -168,7 +171,10 @@ RECURSIVE FoldCtl(_, _, _)
 FoldCtl(S, its, i) ==
   IF i > Len(its) THEN S
   ELSE LET it == its[i]
-           S1 == CASE it.k = "begin" -> ResetState(S)
+           \* the song-begin hook: controller reset, and (since the repair of the stale programs after a backward seek)
+           \* program 0, bank 0:0 and no XG percussion flag on every channel
+           S1 == CASE it.k = "begin" -> LET R == ResetState(S) IN
+                                         [R EXCEPT !.mc = [q \in DOMAIN R.mc |-> [R.mc[q] EXCEPT !.patch = 0, !.msb = 0, !.lsb = 0, !.xgp = FALSE]]]
                    [] it.k = "cc"    -> Controller(S, it.ch, it.d[1], it.d[2])
                    [] it.k = "pc"    -> [S EXCEPT !.mc[it.ch + 1].patch = it.d[1]]
                    [] it.k = "bend"  -> [S EXCEPT !.mc[it.ch + 1].bend = it.d[1] + it.d[2] * 128 - 8192]
@@ -253,6 +259,42 @@ PlayAfterSeekFails(ev, sg, c, from) ==
      Lbl(\A i \in DOMAIN Dk : Count(Dk, LAMBDA y : y = Dk[i]) <= Count(post \o amb, LAMBDA it : KeyOfItem(it) = Dk[i]), "suffix-extra-or-mistimed") \cup
      Lbl(ev.atend = 1, "not-at-end")
 
+\* ... with looping on and a finite count, for a target before the loop end (C08's quantifier): what follows is what a
+\* linear looping playback delivers after the target - the rest of this pass, the remaining passes, then the tail.  Counted per
+\* item: an item of the loop body after the target still comes n times, one before it n - 1 times, an item in front of the loop
+\* that lies before the target never again, the tail once.  Items at the loop edges may fall on either side; items of the
+\* loopEnd marker's own row that follow the marker are exempt from the lower bound (finding F26).
+\* (D, its, li are parameters: see PFF)
+PASLF(ev, c, from, D, its, li) ==
+  LET looping == li.valid /\ li.any
+      n == PassCount(c.loopN)
+      Dk == [i \in DOMAIN D |-> KeyOfEntry(D[i])]
+      Rk == [i \in DOMAIN its |-> KeyOfItem(its[i])]
+      st == IF looping THEN li.st ELSE -1
+      et == IF looping THEN li.et ELSE 2000000000
+      inside(it) == it.t > st /\ it.t < et
+      atEdge(it) == looping /\ (it.t = li.st \/ it.t = li.et)
+      cand(it) == looping /\ li.hasE /\ it.tick = li.etick /\ it.trk = li.etrk /\ it.k \notin {"sysex", "sysex7", "loopend"}
+      loAfter(it)  == IF cand(it) THEN 0 ELSE IF inside(it) THEN n ELSE 1
+      hiAfter(it)  == IF inside(it) \/ atEdge(it) THEN n ELSE 1
+      loBefore(it) == IF cand(it) \/ atEdge(it) THEN 0 ELSE IF inside(it) THEN n - 1 ELSE 0
+      hiBefore(it) == IF atEdge(it) THEN n ELSE IF inside(it) THEN n - 1 ELSE 0
+      lo(it) == IF it.t > from + SeekSlackUs THEN loAfter(it) ELSE IF it.t <= from - SeekSlackUs THEN loBefore(it) ELSE Min(loAfter(it), loBefore(it))
+      hi(it) == IF it.t > from + SeekSlackUs THEN hiAfter(it) ELSE IF it.t <= from - SeekSlackUs THEN hiBefore(it) ELSE Max(hiAfter(it), hiBefore(it))
+      keys == { Rk[i] : i \in DOMAIN Rk } \cup { Dk[i] : i \in DOMAIN Dk }
+      cntD(k) == Count(Dk, LAMBDA y : y = k)
+      loK(k) == SumSeq([i \in DOMAIN its |-> IF Rk[i] = k THEN lo(its[i]) ELSE 0])
+      hiK(k) == SumSeq([i \in DOMAIN its |-> IF Rk[i] = k THEN hi(its[i]) ELSE 0])
+  IN IF Len(D) > (n + 1) * Len(its) + 8 THEN {"suffix-extra-or-mistimed"} \cup Lbl(ev.atend = 1, "not-at-end")
+     ELSE Lbl(\A k \in keys : cntD(k) >= loK(k), "suffix-missing") \cup
+          Lbl(\A k \in keys : cntD(k) <= hiK(k), "suffix-extra-or-mistimed") \cup
+          Lbl(ev.atend = 1, "not-at-end")
+PlayAfterSeekLoopFails(ev, sg, c, from) ==
+  LET li == LoopInfo(sg) IN
+  \* a target at or behind the loop end is outside the property's quantifier; a degenerate loop (start = end) is judged by C09 only
+  IF (li.valid /\ li.any /\ (from + SeekSlackUs >= li.et \/ li.st = li.et)) THEN {}
+  ELSE PASLF(ev, c, from, EntriesOf(ev.calls, "e"), Gated(sg, sg.its, c.enabled, c.solo), li)
+
 StepInit(ev) == /\ song' = [none |-> TRUE] /\ cfg' = [Cfg0 EXCEPT !.rate = ev.rate] /\ pos' = Pos0 /\ exec' = exec + 1 /\ fails' = fails /\ drift' = drift
                 /\ cnt' = [cnt EXCEPT !.execs = @ + 1]
 \* everything derived from the song is computed once here (TLC does not memoise operator applications)
@@ -307,7 +349,7 @@ ModelVsReal(mr, real, hooks) ==
 BigPlay(ev) == ev.trunc = 1 \/ ("ne" \in DOMAIN ev /\ ev.ne > 3000)
 StepPlayBig(ev) ==
   LET expectedToEnd == ~cfg.loopEn \/ cfg.loopN >= 0
-      judged == ~pos.moved /\ "partial" \notin DOMAIN ev /\ expectedToEnd
+      judged == ~pos.moved /\ "partial" \notin DOMAIN ev /\ "until" \notin DOMAIN ev /\ expectedToEnd
       f == IF judged THEN {"delivery-count"} \cup Lbl(ev.atend = 1, "not-at-end") ELSE {}
   IN /\ fails' = AddFails(Tag(IF cfg.loopEn THEN "C09" ELSE "C07", f, ev, ToString(<<"runaway play: events", IF "ne" \in DOMAIN ev THEN ev.ne ELSE -1, "log cut", ev.trunc, "n", cfg.loopN>>)))
      /\ pos' = [pos EXCEPT !.moved = TRUE, !.stgt = -1]
@@ -316,7 +358,7 @@ StepPlayBig(ev) ==
 StepPlayNormal(ev) ==
   LET \* partial: deliberately stopped after a few calls; trunc: the harness cut the log at 6000 entries, which a play that
       \* is expected to end never reaches (then it is judged: it did not end)
-      full == ~pos.moved /\ "partial" \notin DOMAIN ev /\ (ev.trunc = 0 \/ ~cfg.loopEn \/ cfg.loopN >= 0)
+      full == ~pos.moved /\ "partial" \notin DOMAIN ev /\ "until" \notin DOMAIN ev /\ (ev.trunc = 0 \/ ~cfg.loopEn \/ cfg.loopN >= 0)
       li == LoopInfo(song)
       f7 == IF full THEN PlayFullFails(ev, song, cfg) ELSE {}
       fw == IF full /\ ~cfg.loopEn /\ ev.trunc = 0 THEN WindowFails(ev, song, cfg) ELSE {}
@@ -326,7 +368,8 @@ StepPlayNormal(ev) ==
       \* leg (C): the recorded delivery (events and loop hooks, in order, with their song times) is the model's delivery
       ungated == Ungated(cfg)
       afterSeek == pos.stgt >= 0
-      doRef == IOEnv.SEQ_REFINE = "1" /\ (full \/ (afterSeek /\ ev.trunc = 0)) /\ ev.atend = 1 /\ ev.steps = <<>> /\ ungated /\ (cfg.loopEn => cfg.loopN >= 0) /\ Len(D) <= 150
+      \* (a target equal to the loop end time sits on a floating-point edge of `seconds >= m_loopEndTime`: not compared)
+      doRef == IOEnv.SEQ_REFINE = "1" /\ ~(afterSeek /\ pos.stgt = li.et) /\ (full \/ (afterSeek /\ ev.trunc = 0)) /\ ev.atend = 1 /\ ev.steps = <<>> /\ ungated /\ (cfg.loopEn => cfg.loopN >= 0) /\ Len(D) <= 150
       realLog == StripLog(AllLog(ev.calls))
       mrun == IF ~doRef THEN [calls |-> <<>>, trunc |-> 1]
               ELSE IF afterSeek THEN PlayAfterSeekModel(song, cfg.loopEn, cfg.loopN, pos.stgt, 500000 \div cfg.rate)
@@ -335,9 +378,13 @@ StepPlayNormal(ev) ==
       fd == IF doRef THEN ModelVsReal(mrun, realLog, cfg.hooks) ELSE 0
       dr == fd # 0
       det == ToString(<<"loop", li, "n", cfg.loopN, "hooks", EntriesOf(ev.calls, "h"), "nLS", Count(EntriesOf(ev.calls, "h"), LAMBDA x : x[3] = 1), "times", [i \in DOMAIN D |-> D[i][2]]>>)
-      f8 == IF pos.moved /\ ~cfg.loopEn /\ ev.trunc = 0 /\ ev.steps = <<>> THEN PlayAfterSeekFails(ev, song, cfg, pos.t) ELSE {}
+      f8 == IF pos.moved /\ ~cfg.loopEn /\ ev.trunc = 0 /\ ev.steps = <<>> THEN PlayAfterSeekFails(ev, song, cfg, pos.t)
+            ELSE IF afterSeek /\ cfg.loopEn /\ cfg.loopN >= 0 /\ ev.trunc = 0 /\ ev.steps = <<>> /\ "partial" \notin DOMAIN ev
+                 THEN PlayAfterSeekLoopFails(ev, song, cfg, pos.t) ELSE {}
   IN /\ fails' = AddFails(Tag("C07", { x \in f7 \cup fw : ~is9(x) }, ev, "") \cup Tag("C09", { x \in f7 : is9(x) }, ev, det)
-                          \cup Tag("C08", f8, ev, ToString(<<"from", pos.t>>)))
+                          \cup Tag("C08", f8, ev, ToString(<<"from", pos.t>>))
+                          \* the pass count after a seek is a loop-count matter as well
+                          \cup (IF cfg.loopEn THEN Tag("C09", f8, ev, ToString(<<"from", pos.t>>)) ELSE {}))
      /\ pos' = [pos EXCEPT !.moved = TRUE, !.stgt = -1, !.t = IF ev.calls = <<>> THEN @ ELSE ev.calls[Len(ev.calls)][2]]
      /\ drift' = IF dr /\ Len(drift) < 4 THEN Append(drift, [l |-> l, x |-> exec, e |-> IF afterSeek THEN "PlayTicks-after-seek" ELSE "PlayTicks",
                       d |-> ToString(<<"first-difference-at", fd>>)]) ELSE drift
